@@ -87,6 +87,36 @@ def own_corpus():
             "factors": [s, a], "constraints": [{"id": 0, "kind": "Pin", "index": idx, "level": [0, "s1"]}],
             "blocks": [{"id": 0, "kind": "CrossBlock", "design": [0, 1], "crossing": [0, 1], "constraints": [0], "rcc": True}],
             "main": 0}))
+    # a factor in two crossings + Sequential (factor_preamble_size)
+    f3 = {"id": 0, "name": "f0", "kind": "simple", "levels": [["a0", 1], ["b0", 1], ["c0", 1]]}
+    out.append(("sequential-factor-in-two-crossings", {
+        "factors": [f3], "constraints": [{"id": 0, "kind": "Sequential", "factor": 0}],
+        "blocks": [{"id": 0, "kind": "MultiCrossBlock", "design": [0], "crossings": [[0], [0]], "constraints": [0], "rcc": True,
+                    "mode": "weight", "alignment": "post preamble"}], "main": 0}))
+    tr = {"id": 1, "name": "tr", "kind": "derived", "window": {"type": "transition", "deps": [0]},
+          "levels": [{"name": "same", "table": [[["a0", "a0"]], [["b0", "b0"]], [["c0", "c0"]]], "weight": 1},
+                     {"name": "diff", "else": True, "weight": 1}]}
+    out.append(("sequential-two-crossings-different-preambles", {
+        "factors": [f3, tr], "constraints": [{"id": 0, "kind": "Sequential", "factor": 0}],
+        "blocks": [{"id": 0, "kind": "MultiCrossBlock", "design": [0, 1], "crossings": [[0], [0, 1]], "constraints": [0], "rcc": False,
+                    "mode": "weight", "alignment": "parallel start"}], "main": 0}))
+    # POST_PREAMBLE with an uncrossed window factor that starts late
+    g0 = {"id": 0, "name": "f0", "kind": "simple", "levels": [["a0", 1], ["b0", 1]]}
+    g1 = {"id": 1, "name": "f1", "kind": "simple", "levels": [["a1", 1], ["b1", 1]]}
+    d4 = {"id": 2, "name": "d4", "kind": "derived", "window": {"type": "window", "deps": [0], "width": 2, "stride": 1, "start": 1},
+          "levels": [{"name": "L4_0", "table": [[["a0", "a0"]], [["a0", "b0"]]], "weight": 1}, {"name": "L4_1", "else": True, "weight": 1}]}
+    out.append(("post-preamble-uncrossed-window", {
+        "factors": [g0, g1, d4], "constraints": [],
+        "blocks": [{"id": 0, "kind": "MultiCrossBlock", "design": [0, 1, 2], "crossings": [[0], [1]], "constraints": [], "rcc": True,
+                    "mode": "equal", "alignment": "post preamble"}], "main": 0}))
+    # Exclude of an uncrossed basic level makes a crossed derived level impossible
+    e1 = {"id": 1, "name": "d1", "kind": "derived", "window": {"type": "within", "deps": [0]},
+          "levels": [{"name": "L1_0", "table": [[["b0"]]], "weight": 1}, {"name": "L1_1", "else": True, "weight": 1}]}
+    out.append(("exclude-basic-under-crossed-derived", {
+        "factors": [g0, e1], "constraints": [{"id": 0, "kind": "Exclude", "level": [0, "a0"]},
+                                             {"id": 1, "kind": "MinimumTrials", "trials": 3}],
+        "blocks": [{"id": 0, "kind": "CrossBlock", "design": [0, 1], "crossing": [1], "constraints": [0, 1], "rcc": False}],
+        "main": 0}))
     # latin square
     out.append(("latin-2x3", {
         "factors": [s, {"id": 1, "name": "t", "kind": "simple", "levels": [["t0", 1], ["t1", 1], ["t2", 1]]}],
